@@ -312,17 +312,56 @@ def chunk_variants(chunk, acc):
     cp = profile_env.install(True)
     vb = [f for f in RP.PRODUCTIONS["start"] if f[0] == "b" and f[3]]
     for f in vb:
-        for variant in (None, '"default"', '"v1"'):
+        for variant in (None, '"default"', '"v1"', '"Default"', '"DEFAULT"', '"default "'):
             for body in ([], [mk(RP.PRODUCTIONS[f[4]][0])], [mk(x) for x in RP.PRODUCTIONS[f[4]][:2]]):
                 acc.states += 1
                 check_sentence(acc, cp, [("b", f[1], f[2], variant, f[4], body)], "variant")
         check_sentence(acc, cp, [("b", f[1], f[2], None, f[4], [mk(RP.PRODUCTIONS[f[4]][0])]), ("b", f[1], f[2], '"v1"', f[4], [mk(RP.PRODUCTIONS[f[4]][0], ('"other"',))])], "variant-rep")
+        # the real default block next to a variant whose name differs from "default" in capitalisation only
+        check_sentence(acc, cp, [("b", f[1], f[2], '"default"', f[4], [mk(RP.PRODUCTIONS[f[4]][0])]), ("b", f[1], f[2], '"Default"', f[4], [mk(RP.PRODUCTIONS[f[4]][0], ('"other"',))])], "variant-case")
     # data transform under a variant (the statement leaves the representation open; keys must still be complete)
     g = ([mk(RP.TRANSFORM_STEPS[1])], mk(RP.TERMINATIONS[2]))
     for variant in ('"default"', '"v1"'):
         s = [("b", "http_get", "http-get", variant, "http_get", [("b", "client", "client", None, "http_client", [("dt", "metadata", "metadata", [g])])])]
         check_sentence(acc, cp, s, "variant-dt")
-    acc.sample({"variants": [None, "default", "v1"], "blocks": [f[2] for f in vb]})
+    # the file entry point: the same text (with raw non-ASCII characters in its literals) stored in a file, written
+    # with the platform's default text encoding, reports the same dictionary, tree and text as from_text
+    import os
+    import tempfile
+
+    d = tempfile.mkdtemp(prefix="vmc_c11_")
+    path = os.path.join(d, "p.profile")
+    g = ([mk(RP.TRANSFORM_STEPS[1], ('"caf\u00e9"',))], mk(RP.TERMINATIONS[2], ('"\u00fc"',)))
+    sents = [
+        [("s", "option", ("set", "useragent"), ('"caf\u00e9 \u00ff"',))],
+        [("b", "http_get", "http-get", None, "http_get", [("s", "uri", ("set", "uri"), ('"/\u00e9"',)), ("b", "client", "client", None, "http_client", [("s", "header", ("header",), ('"X-\u00dc"', '"\u00e4\u00f6"')), ("dt", "metadata", "metadata", [g])])])],
+    ]
+    try:
+        for sent in sents:
+            src = RP.render(RP.sentence_tokens(sent), 1)
+            acc.states += 1
+            acc.transitions += 1
+            acc.case(("path", src), outcome="path")
+            try:
+                with open(path, "w") as fh:
+                    fh.write(src)
+            except UnicodeEncodeError:
+                continue
+            try:
+                pt, pf = cp.C2Profile.from_text(src), cp.C2Profile.from_path(path)
+                if pf.tree != pt.tree or pf.as_text() != pt.as_text() or copy.deepcopy(pf.as_dict()) != copy.deepcopy(pt.as_dict()):
+                    acc.fail("C11/from_path/differs-from-from_text", {"kind": "path", "source": src}, repr(pt.as_dict())[:300], repr(pf.as_dict())[:300])
+                    continue
+                why = RP.compare_dict(copy.deepcopy(pf.as_dict()), sent)
+                if why:
+                    acc.fail("C11/from_path/entries", {"kind": "path", "source": src}, why, repr(pf.as_dict())[:300])
+            except Exception as e:  # noqa
+                acc.fail("C11/from_path/exception", {"kind": "path", "source": src}, "profile", f"{type(e).__name__}: {str(e)[:200]}")
+    finally:
+        if os.path.exists(path):
+            os.unlink(path)
+        os.rmdir(d)
+    acc.sample({"variants": [None, "default", "v1", "Default", "DEFAULT"], "blocks": [f[2] for f in vb]})
 
 
 def chunk_everything(chunk, acc):
@@ -582,6 +621,8 @@ def replay(case):
         run_two(a, cp, tuple((w, tuple(e)) for w, e in case["events"]))
     elif case["kind"] == "sentence":
         check_sentence(a, cp, RP.parse_tokens(case["tokens"]), "replay")
+    elif case["kind"] == "path":
+        chunk_variants({}, a)
     else:
         chunk_kwargs({}, a)
     v = a.violations[0] if a.violations else None
